@@ -115,11 +115,11 @@ func runC02(c *Ctx) {
 				} else {
 					c.Bad("C02.O2-digest-source", key+" › sum error gates commit", cm.In.Pos(), "commit reachable although SumStream returned an error: "+sumErr.String())
 				}
-				// body must be the reader parameter of the callback.
-				if body := strip(sb["body"]); body.Op == "param" && w.Fn.Parent() != nil && isParamOf(body, w.Fn) {
-					c.OK("C02.O2-digest-source", key+" › body", cm.In.Pos(), "hashed stream is the callback's reader parameter "+body.Name)
+				// body must be the reader parameter of the fetch callback (possibly handed on to a named helper).
+				if why := c02BodyIsCallbackParam(c, w, strip(sb["body"])); why == "" {
+					c.OK("C02.O2-digest-source", key+" › body", cm.In.Pos(), "hashed stream is the fetch callback's reader parameter")
 				} else {
-					c.Bad("C02.O2-digest-source", key+" › body", cm.In.Pos(), "hashed stream is not the response-body parameter of the fetch callback: "+sb["body"].String())
+					c.Bad("C02.O2-digest-source", key+" › body", cm.In.Pos(), why)
 				}
 			}
 			// opener error gates commit
@@ -205,6 +205,50 @@ func walkUses(v ssa.Value, f func(ssa.Instruction)) {
 // c02Requested: the closure containing the opener w is passed to a fetch
 // routine together with a resource string derived from the same CID.
 func c02Requested(c *Ctx, w CallSite, cid *X, key string) {
+	cbFn := w.Fn
+	if cbFn.Parent() == nil {
+		// named helper: lift to the callback(s) that call it, translating the CID argument
+		vals, ats := c.ActualsAt(cid)
+		if len(vals) == 0 {
+			c.Unk("C02.O2b-requested-cid", key, w.In.Pos(), "store writer is neither a fetch callback nor a helper called from one; cannot relate the request to the verified CID")
+			return
+		}
+		for i, v := range vals {
+			cb := ats[i].Parent()
+			if cb.Parent() == nil {
+				c.Unk("C02.O2b-requested-cid", key, ats[i].Pos(), "verifying helper is called outside a fetch callback")
+				continue
+			}
+			c02RequestedIn(c, CallSite{In: ats[i], Fn: cb}, v, key)
+		}
+		return
+	}
+	c02RequestedIn(c, w, cid, key)
+}
+
+// c02BodyIsCallbackParam returns "" if body is the reader parameter of a closure (the fetch callback),
+// directly or as the argument a named verifying helper is called with from such a closure.
+func c02BodyIsCallbackParam(c *Ctx, w CallSite, body *X) string {
+	if body.Op != "param" || !isParamOf(body, w.Fn) {
+		return "hashed stream is not a parameter of the verifying routine: " + body.String()
+	}
+	if w.Fn.Parent() != nil {
+		return ""
+	}
+	vals, ats := c.ActualsAt(body)
+	if len(vals) == 0 {
+		return "verifying helper's callers are unknown: the hashed stream cannot be tied to a response body"
+	}
+	for i, v := range vals {
+		cb := ats[i].Parent()
+		if cb.Parent() == nil || strip(v).Op != "param" || !isParamOf(strip(v), cb) {
+			return "verifying helper is handed something other than a fetch callback's reader parameter at " + c.pos(ats[i].Pos())
+		}
+	}
+	return ""
+}
+
+func c02RequestedIn(c *Ctx, w CallSite, cid *X, key string) {
 	parent := w.Fn.Parent()
 	if parent == nil {
 		c.Unk("C02.O2b-requested-cid", key, w.In.Pos(), "store writer is not inside a fetch callback; cannot relate the request to the verified CID")
@@ -248,6 +292,10 @@ func c02Trusted(c *Ctx, openers []CallSite) {
 	verified := map[*ssa.Function]bool{}
 	for _, o := range openers {
 		verified[topFunc(o.Fn)] = true
+	}
+	if bf := c.Role("ipnisync.blockfetch"); bf != nil {
+		// with the verification moved into a named helper, the fetch that feeds it is the verifying fetch
+		verified = map[*ssa.Function]bool{bf: true}
 	}
 	n := 0
 	for _, rel := range subscriberPkgs {
